@@ -41,7 +41,7 @@ BoundaryFill(M, i, b, g) ==
            scalar == F.kind \in {"prim", "primlist", "primmap"} /\ ~F.placeholder
        IN BoundaryFill(M, i + 1, b,
             IF ~scalar THEN g
-            ELSE IF F.oneof # "" THEN SetPath(g, <<F.oneof>>, One(F.name, ScalarAt(F, b)))
+            ELSE IF F.oneof # "" THEN SetPath(g, F.opath, One(F.name, ScalarAt(F, b)))
             ELSE SetPath(g, F.gopath, BoundaryField(F, b)))
 
 \* one struct value per boundary value of the message's (single) scalar Go type
